@@ -275,13 +275,18 @@ def out_of_domain(e, binds):
             r = evaluate('numpy', s, {v: binds[v] for v in vars_of(s)})
             if r[0] == 'val' and _has(r[1], lambda n: abs(n) >= 2 ** 24):
                 return 'magnitude beyond 2^24 (float32 no longer holds integers exactly)'
+            if r[0] == 'val' and _has(r[1], lambda n: n != 0 and abs(n) < 1e-30):
+                return 'magnitude below 1e-30 (float32 underflows to 0)'
         if s[0] == 'd' and s[1] in ('!', ':%', '^'):
             vals = []
             for x in kids(s):
                 r = evaluate('numpy', x, {v: binds[v] for v in vars_of(x)})
                 if r[0] != 'val':
-                    return None
+                    vals = None         # an operand that does not evaluate: this node is judged through its inner nodes
+                    break
                 vals.append(r[1])
+            if vals is None:
+                continue
             if s[1] in ('!', ':%') and not (all_int(vals[0]) and all_int(vals[1])):
                 return 'remainder / integer-divide with a non-integer operand'
             if s[1] == '^' and _has(vals[0], lambda n: n == 0) and _has(vals[1], lambda n: n < 0):
